@@ -15,6 +15,7 @@
 #include "dnspkt_common.h"
 #include <stddef.h>
 #include <sys/mman.h>
+#include <sys/eventfd.h>
 
 /* ------------------------------------------------------------------ */
 /* grammar                                                              */
@@ -361,13 +362,21 @@ static int cx_accept(struct cx *c)
  * the property talks about (evdns_base, nameserver, request, TCP connection) is per execution. */
 static struct { struct event_base *eb; int usock, lsock; struct sockaddr_in sin; } g_env = { NULL, -1, -1, {0} };
 
+static void env_noop_cb(evutil_socket_t fd, short what, void *arg) { (void)fd; (void)what; (void)arg; }
 static int env_open(int mode)
 {
 	g_env.usock = g_env.lsock = -1;
 	g_env.eb = event_base_new();
 	if (!g_env.eb) return -1;
 	if (mode == M_TCP) g_env.lsock = dp_tcp_listener(&g_env.sin); else g_env.usock = dp_udp_bound(&g_env.sin);
-	return (g_env.lsock < 0 && g_env.usock < 0) ? -1 : 0;
+	if (g_env.lsock < 0 && g_env.usock < 0) return -1;
+	/* the event_base keeps one lazily allocated slot per fd number it has ever watched: touch the
+	 * next few fd numbers now so that the per-execution allocation baseline does not move later */
+	int fds[10]; struct event ev;
+	for (int i = 0; i < 10; i++) fds[i] = eventfd(0, EFD_CLOEXEC);
+	for (int i = 0; i < 10; i++) if (fds[i] >= 0) { event_assign(&ev, g_env.eb, fds[i], EV_READ, env_noop_cb, NULL); event_add(&ev, NULL); event_del(&ev); }
+	for (int i = 0; i < 10; i++) if (fds[i] >= 0) close(fds[i]);
+	return 0;
 }
 static void env_close(void)
 {
@@ -620,7 +629,7 @@ static int done_insert(uint64_t h)
 	return 1;
 }
 
-static long g_item_leaks, g_tr_env;
+static long g_item_leaks;
 static int spec_has_cname(const struct spec *s)
 {
 	static const uint8_t set[] = { 5, 6, 7, 8, 24, 25, 26, 28, 29, 30, 33 };
@@ -684,7 +693,7 @@ static void run_exec(const struct spec *s, int cfg, int mode, const struct dp_bu
 	cx_base_free(c);
 	long leaked = mcx_alloc_live() - c->env_live;
 	if (leaked) report_leak(leaked, cfg, s, "after evdns_base_free");
-	if (dp_tr_on && dp_alloc_trace_live() > g_tr_env) { dp_alloc_trace_dump(g_ctx); g_tr_env = dp_alloc_trace_live(); }
+	dp_alloc_trace_dump(g_ctx);
 }
 
 /* ------------------------------------------------------------------ */
@@ -809,13 +818,12 @@ static void item_fn(uint64_t idx)
 	long item_live0 = mcx_alloc_live(); g_item_leaks = 0;
 	if (env_open(it->mode) < 0) { mc_fail("harness:env", "%s: cannot create event_base/sockets: %s", d, strerror(errno)); env_close(); return; }
 	vclock_reset(); memset(&g_cx, 0, sizeof g_cx); g_cx.csock = -1;
-	g_tr_env = 1 << 30;
 	{	/* warm-up execution (not judged): sizes the event_base's lazily allocated tables */
 		static struct dp_buf v; struct spec canon; memset(&canon, 0, sizeof canon); canon.qt = s->qt; canon.a = 1;
 		if (cx_base_new(&g_cx, it->cfg) == 0 && cx_request(&g_cx, s->qt, it->cfg, it->mode) == 0) { build_message(&canon, &g_cx.q, &v); cx_deliver(&g_cx, it->mode, v.b, v.n, 0, 0); }
 		cx_base_free(&g_cx);
 	}
-	g_tr_env = dp_alloc_trace_live();
+	dp_alloc_trace_mark();
 	if (it->plan == 0) { snprintf(g_ctx, sizeof g_ctx, "%s len=%zu", d, w.n); run_exec(s, it->cfg, it->mode, &w, w.n, 0, 0, pq); }
 	else if (it->plan == 1) {
 		for (size_t L = 0; L <= w.n; L++) { snprintf(g_ctx, sizeof g_ctx, "%s prefix=%zu/%zu", d, L, w.n); run_exec(s, it->cfg, it->mode, &w, L, 0, 0, pq); }
